@@ -47,6 +47,57 @@ def mode_of_site(life, idx):
     return "?"
 
 
+def make_selector(step, name="other"):
+    """Between loop iterations the harness (not the robot) edits the dashboard's 'Auto Selector' string."""
+    if step is None:
+        return None
+
+    def observe(robot, k, inst):
+        import wpilib
+
+        if k == step:
+            wpilib.SmartDashboard.putString("Auto Selector", name)
+        return None
+
+    return observe
+
+
+def work_extra(item):
+    """Slow control loops with faults more than error_report_interval apart, and faults around a change of the
+    selected autonomous mode between two autonomous periods."""
+    R.install()
+    lay = item["layout"]
+    res = core.Result()
+    for h in item["histories"]:
+        for sel in item["selects"]:
+            ref = R.run_life(lay, h, fms=True, observe=make_selector(sel))
+            res.executions += 1
+            refseq = site_seq(ref)
+            if ref.end[0] != "exit":
+                res.violation("reference-run-failed", f"fault-free run of {h!r} (select@{sel}) ended with {ref.end!r}", dict(engine="robot", layout=lay, history=h, fms=True, faults={}, select=sel))
+                continue
+            for plan in item["plans"]:
+                if not any(k in refseq for k in plan):
+                    continue
+                life = R.run_life(lay, h, fms=True, faults=plan, observe=make_selector(sel))
+                res.executions += 1
+                res.transitions += len(life.steps)
+                res.checks += 1
+                seq = site_seq(life)
+                desc = ",".join(f"{k}@{v}" for k, v in sorted(plan.items()))
+                if life.end[0] != "exit" or seq != refseq:
+                    fired = [r for r in life.log if len(r) > 3]
+                    where = fired[-1][0] if fired else "?"
+                    kind = "robot-stopped" if life.end[0] != "exit" else "callbacks-skipped"
+                    k = next((i for i, (x, y) in enumerate(zip(seq, refseq)) if x != y), min(len(seq), len(refseq)))
+                    tag = "slow-loop" if lay["p_us"] >= 100000 else "selection-change"
+                    res.violation(f"fms:{kind}:{where}:{tag}", f"layout {lay['name']} history {h!r} select-other-after-step {sel} faults {desc} (FMS attached): end={life.end!r}; callback sequence diverges from the fault-free run at index {k}: got {seq[k:k+4]}, fault-free {refseq[k:k+4]}", dict(engine="robot", layout=lay, history=h, fms=True, faults={kk: (list(v) if isinstance(v, tuple) else v) for kk, v in plan.items()}, select=sel))
+                res.outcome(core.stable_hash([h, sel, desc, seq[-3:]]))
+    if not res.samples and item["histories"]:
+        res.sample(dict(layout=lay["name"], history=item["histories"][0], select_other_after_step=item["selects"], plans=[{k: (list(v) if isinstance(v, tuple) else v) for k, v in p.items()} for p in item["plans"][:3]]))
+    return res
+
+
 def work(item):
     R.install()
     lay = item["layout"]
@@ -132,9 +183,25 @@ def main(tier, seed):
         hp = R.histories(d_pair)
         for i in range(0, len(hp), 2):
             items.append(dict(layout=lay, histories=hp[i:i + 2], kind="pair"))
+    # (a) slow loop (0.3 s period > error_report_interval): faults on calls that are 0.6 s or more apart
+    c = R.comp
+    slow = R.layout("slow-loop", [c("c0"), c("c1")], auto=True, teleop_in_auto=True, p_us=300000)
+    slow_plans = [{s_: pat} for s_ in sites(slow) for pat in ((1, 3), (1, 2, 4))]
+    slow_hs = R.long_histories(5 if tier == "quick" else 7, pairs=("dt", "da", "dx", "ta"))
+    extra = [dict(layout=slow, histories=slow_hs[i:i + 4], selects=[None], plans=slow_plans) for i in range(0, len(slow_hs), 4)]
+    # (b) the selected autonomous mode changes between two autonomous periods while mode callbacks fault
+    sel_lay = R.layout("two-modes", [c("c0")], auto=True, teleop_in_auto=False, p_us=20000)
+    mode_sites = ["mode.on_enable", "mode.on_iteration", "mode.on_disable", "other.on_enable", "other.on_iteration", "other.on_disable"]
+    sel_plans = [{s_: pat} for s_ in mode_sites for pat in ("every", 1)] + [{"mode.on_disable": "every", "other.on_disable": "every"}, {"mode.on_enable": "every", "other.on_enable": "every"}]
+    sel_hs = [h for h in R.long_histories(6 if tier == "quick" else 8, pairs=("da", "at")) if h.count("a") >= 2 and ("da" in h[1:] or "ta" in h[1:])]
+    extra += [dict(layout=sel_lay, histories=sel_hs[i:i + 3], selects=[0, 1, 2, 3], plans=sel_plans) for i in range(0, len(sel_hs), 3)]
     res = core.Result()
-    for d in core.parallel("mc.props.c07", "work", items, seed=seed):
-        res.merge(d)
+    with core.WorkerPool() as pool:
+        for d in pool.run("mc.props.c07", "work", items, seed=seed):
+            res.merge(d)
+        for d in pool.run("mc.props.c07", "work_extra", extra, seed=seed):
+            res.merge(d)
+    res.bounds.update(slow_loop_histories=len(slow_hs), slow_loop_patterns=["calls 1 and 3", "calls 1, 2 and 4"], selection_change_histories=len(sel_hs), selection_change_after_step=[0, 1, 2, 3])
     res.states = sum(len(sites(l)) for l in L) * 3 * 4
     res.bounds.update(single_fault_history_depth=d_single, fault_pair_history_depth=d_pair, layouts=len(L), sites=sites(L[0]), patterns=["1st call", "2nd call", "every call"])
     rule = (
@@ -142,6 +209,8 @@ def main(tier, seed):
         "all pairs of sites raising on every call): run the real robot with the FMS attached and compare the sequence of callback sites with "
         "the fault-free run of the same history (must be identical, robot must still shut down cleanly); single plans are also run without "
         "the FMS, where the injected exception object must propagate out of startCompetition() and nothing may run after the faulting call. "
+        "In addition: a robot with a 0.3 s loop period and faults on calls 0.6 s or more apart (longer than error_report_interval), and a robot with two "
+        "autonomous modes whose selection (dashboard 'Auto Selector') changes between two autonomous periods while mode callbacks fault. "
         "states = site x pattern x mode combinations; transitions = loop iterations executed under a fault plan."
     )
     return core.finish(PID, tier, seed, res, time.time() - t0, rule, ["values seen by later callbacks are not compared (a raising callback does not finish its own side effects)", "setup() and createObjects() are not callback sites of this property"])
@@ -151,8 +220,9 @@ def replay(path):
     R.install()
     r = json.load(open(path))["replay"]
     lay, h = r["layout"], r["history"]
-    ref = R.run_life(lay, h, fms=r["fms"])
-    life = R.run_life(lay, h, fms=r["fms"], faults=r["faults"])
+    obs = make_selector(r.get("select")) if "select" in r else None
+    ref = R.run_life(lay, h, fms=r["fms"], observe=obs)
+    life = R.run_life(lay, h, fms=r["fms"], faults=r["faults"], observe=make_selector(r.get("select")) if "select" in r else None)
     print("fault-free :", site_seq(ref), ref.end[0])
     print("with faults:", site_seq(life), life.end)
     if r["fms"]:
